@@ -67,6 +67,8 @@ pub struct Pair {
     pub b: End,
     pub step: u64,
     pub probes: Vec<(char, Event)>,
+    /// real code activity: seals, handshakes completed, keys rotated
+    pub activity: [u64; 3],
     buf: Box<MsgBuffer>,
 }
 
@@ -107,7 +109,7 @@ impl Pair {
         crate::verif::fill("cloud.node_id", &mut id_b);
         let ca = make_crypto(id_a, cfg_a, speeds_a, &hooks)?;
         let cb = make_crypto(id_b, cfg_b, speeds_b, &hooks)?;
-        Ok(Pair { hooks, a: End::new('A', ca), b: End::new('B', cb), step: 0, probes: vec![], buf: Box::new(MsgBuffer::new(100)) })
+        Ok(Pair { hooks, a: End::new('A', ca), b: End::new('B', cb), step: 0, probes: vec![], activity: [0; 3], buf: Box::new(MsgBuffer::new(100)) })
     }
 
     pub fn end(&mut self, who: char) -> &mut End {
@@ -121,6 +123,12 @@ impl Pair {
     fn drain_probes(&mut self, who: char) {
         let evs: Vec<Event> = self.hooks.borrow_mut().probes.drain(..).collect();
         for e in evs {
+            match &e {
+                Event::Seal { .. } => self.activity[0] += 1,
+                Event::HandshakeDone { .. } => self.activity[1] += 1,
+                Event::KeyRotated { .. } => self.activity[2] += 1,
+                _ => {}
+            }
             self.probes.push((who, e));
         }
     }
